@@ -574,7 +574,7 @@ impl InstrFormat for InstrFormat06 {
             Err(e) => return Err(e),
         };
 
-        let opcode = f.read_i8()?;
+        let opcode = f.read_u8()?;  // (written as a u8: opcodes 128..=255 must not come back sign-extended)
         let argsize = f.read_u8()? as usize;
         let args_blob = f.read_byte_vec(argsize)?;
         let instr = RawInstr { time, opcode: opcode as u16, param_mask: 0, args_blob, ..RawInstr::DEFAULTS };
